@@ -89,6 +89,7 @@ def outcome_strings(ctx, prog, n, init_model, maxlen=6):
     """all outcome strings that are complete for the program (ask the model: too short -> unsupported, too long -> leftover)"""
     out = []
     frontier = [""]
+    complete = True
     while frontier:
         nxt = []
         for s in frontier:
@@ -96,10 +97,12 @@ def outcome_strings(ctx, prog, n, init_model, maxlen=6):
             if j.get("r") == "ERR:unsupported":
                 if len(s) < maxlen:
                     nxt += [s + "0", s + "1"]
+                else:
+                    complete = False      # a branch with more than maxlen measurements: the enumeration is cut off
             elif "prob" in j and j["leftover"] == 0:
                 out.append((s, j))
         frontier = nxt
-    return out
+    return out, complete
 
 
 def one_case(ctx, prog, n, init, style="dict"):
@@ -112,7 +115,9 @@ def one_case(ctx, prog, n, init, style="dict"):
         norm = float(np.linalg.norm(vec))
         init_np = vec / norm
         init_model = [vlib.cyc_of_complex_rational(a, b) for a, b in init]
-    branches = outcome_strings(ctx, prog, n, init_model)
+    branches, complete = outcome_strings(ctx, prog, n, init_model)
+    if not complete:
+        ctx.count("enumeration-cut-off")
     if not branches:
         return True
     cmeas = has_cmeasure(prog)
@@ -179,6 +184,12 @@ def one_case(ctx, prog, n, init, style="dict"):
         for k, v in freqs.items():
             mix[k] = mix.get(k, 0) + p_code * v
     ctx.case(case, nontrivial=nonzero >= 2, sample=len(prog) <= 6)
+    if not complete:
+        # only a part of the outcome strings was enumerated: each branch was checked, the totals cannot be
+        if total_p > 1 + 1e-8:
+            ctx.violation(f"branch probabilities of a partial enumeration sum to {total_p} > 1", case)
+            return False
+        return True
     if abs(total_p - 1) > 1e-8:
         ctx.violation(f"branch probabilities sum to {total_p}, not 1", case)
         return False
